@@ -49,7 +49,7 @@ WellsAt(dev, g, p) == {w \in IdWells(g) : Pos(dev, g, w) = p}
 (* Identifier strings: row letter + two digit (or longer) column number.   *)
 (***************************************************************************)
 Pad2(n) == IF n < 10 THEN "0" \o ToString(n) ELSE ToString(n)
-RowLetter(r) == SubSeq(Letters, r + 1, r + 1)
+RowLetter(r) == IF r >= 0 /\ r < MaxRows THEN SubSeq(Letters, r + 1, r + 1) ELSE "?"
 WellId(w) == RowLetter(w[1]) \o Pad2(w[2] + 1)
 
 \* identifier array as the constructor must build it: R x C, row-major nesting
